@@ -38,7 +38,7 @@ ACCEPTED GRAMMAR (everything else -> TranslateError naming file, line and constr
              any resolver call; also `TARGET is not None and ...`, operands of == in either order)
              last statement:  ACC += expr | ACC -= expr | ACC = <expr in ACC>   resp.   ACC.append(KEY)
              NO other AugAssign, no call but c_(..4 ints..) and <resolver param>(KEY), no attribute, no numpy.*
-  class      no bases/decorators; docstring and defs only; __init__ template-checked; known members with the
+  class      no bases/decorators; docstring and defs only; __init__ template-checked (`{}` read as `dict()`); known members with the
              decorators of MEMBERS (value_isothermal MUST be @LazyProperty, the two strain energies MUST be @property)
   member     docstring | logger.debug(<pure text: + % f-strings str repr of constants, self.key/.strain/.fictitious_strain,
              the oracle, bound locals>) | NAME = expr (single assignment, not a bare name) |
@@ -752,7 +752,9 @@ class ClassTr(Exprs):
         if init is None:
             bail(c, "no __init__ in")
         names, defaults = plain_args(init, (0, 1))
-        got = [src_of(s) for s in init.body if not is_doc(s)]
+        # `{}` and `dict()` both build a fresh empty dict (the builtin `dict` is not re-bound: check_module)
+        got = [src_of(s) if not (isinstance(s, ast.Assign) and isinstance(s.value, ast.Dict) and not s.value.keys)
+               else "%s = dict()" % src_of(s.targets[0]) for s in init.body if not is_doc(s)]
         if names != ["self", "strain", "key", "calculator"] or init.decorator_list or got != W_INIT or \
                 (defaults and not (isinstance(defaults[0], ast.Constant) and defaults[0].value is None)):
             raise TranslateError("%s:%d: %s.__init__ differs from the accepted form (self, strain, key, calculator=None)\n"
@@ -1129,6 +1131,9 @@ def check_module(mod):
         ns = bound.get(name, [])
         if len(ns) != 1 or not isinstance(ns[0], ty):
             raise TranslateError("%s: `%s` must be defined exactly once at module level" % (SRC, name))
+    for name in ("dict", "str", "repr"):
+        if name in bound:
+            bail(bound[name][0], "module-level re-binding of the builtin `%s`" % name)
     helpers = {}
     for name, ns in bound.items():
         if name in IMPORTS or name in (FN_ENERGY, FN_KEYS, CLS) or all(isinstance(x, (ast.Import, ast.ImportFrom)) for x in ns):
